@@ -533,7 +533,7 @@ QUICK_DATASETS = {
     "C06": ["digit-names-mixed-lengths", "branching-components", "five-branching", "five-cycle-ties", "cycle3", "sparse-components", "digit-component", "four-mixed", "ties-incomplete", "big-bucket"],
     "C07": ["branching-components", "five-branching", "five-cycle-ties", "head-merge", "two-opposed", "ties-incomplete", "four-mixed", "cycle3", "sparse-components"],
     "C08": ["topk", "topk-pairs", "six-mixed", "later-id-first", "four-mixed", "big-bucket", "ties-incomplete"],
-    "C09": ["topk", "topk-pairs", "six-mixed", "later-id-first", "ties-incomplete", "sparse-components", "big-bucket"],
+    "C09": ["topk", "topk-pairs", "six-mixed", "later-id-first", "ties-incomplete", "sparse-components", "big-bucket", "cycle3"],
     "C10": ["six-mixed", "unanimous", "ties-incomplete", "two-opposed", "four-mixed"],
     "C11": ["topk", "unanimous", "strings", "ties-incomplete", "big-bucket", "two-opposed"],
     "C12": ["topk", "equal-means-3-15", "equal-means-5-15", "equal-means-3-6", "six-mixed", "ties-incomplete", "four-mixed", "with-empty", "big-bucket"],
@@ -542,7 +542,7 @@ QUICK_SCHEMES = {
     "C02": ["generic", "unifying"], "C13": ["generic", "unifying", "induced"], "C04": ["unifying-p0.25", "unifying", "unifying-p0.5", "generic"],
     "C05": ["unifying-p0.25", "unifying-x1e-4", "unifying", "b5-gt-t5", "induced"], "C06": ["unifying-x1e-4", "unifying", "b5-gt-t5", "induced"],
     "C07": ["unifying-x1e-4", "unifying", "pseudodistance", "generic"], "C08": ["unifying", "unifying-p0.5", "generic"],
-    "C09": ["unifying-p0.5", "unifying", "induced", "generic"], "C10": ["unifying", "generic"], "C11": ["unifying-p0", "unifying", "generic", "induced"],
+    "C09": ["unifying-p0.5", "induced-p0.5", "unifying", "induced", "generic"], "C10": ["unifying", "generic"], "C11": ["unifying-p0", "unifying", "generic", "induced"],
     "C12": ["pseudodistance", "unifying", "unifying-p0.5", "induced", "generic"],
 }
 
